@@ -125,7 +125,7 @@ def build_model(group):
 
 # --------------------------------------------------------------------------- running cases
 
-def _run_shard(binp, lines, env_extra=None):
+def _run_shard(binp, lines, env_extra=None, args=None):
     """Runs `binp` on lines; restarts after a HANG (exit status 3). Returns result lines."""
     results = []
     i = 0
@@ -134,7 +134,7 @@ def _run_shard(binp, lines, env_extra=None):
         env.update(env_extra)
     while i < len(lines):
         chunk = lines[i:]
-        p = subprocess.run([binp], input=("\n".join(chunk) + "\n").encode(), stdout=subprocess.PIPE,
+        p = subprocess.run([binp] + list(args or []), input=("\n".join(chunk) + "\n").encode(), stdout=subprocess.PIPE,
                            stderr=subprocess.PIPE, env=env)
         out = p.stdout.decode("utf-8", "replace").split("\n")
         if out and out[-1] == "":
@@ -156,14 +156,14 @@ def _run_shard(binp, lines, env_extra=None):
     return results
 
 
-def run_cases(binp, lines, env_extra=None):
+def run_cases(binp, lines, env_extra=None, args=None, per_shard=50):
     if not lines:
         return []
-    n = max(1, min(NPROC, len(lines) // 50 + 1))
+    n = max(1, min(NPROC, len(lines) // per_shard + 1))
     size = (len(lines) + n - 1) // n
     shards = [lines[k:k + size] for k in range(0, len(lines), size)]
     with ThreadPoolExecutor(max_workers=n) as ex:
-        outs = list(ex.map(lambda s: _run_shard(binp, s, env_extra), shards))
+        outs = list(ex.map(lambda s: _run_shard(binp, s, env_extra, args), shards))
     res = []
     for o in outs:
         res += o
@@ -252,10 +252,60 @@ def parse_assumptions(make_output):
 # --------------------------------------------------------------------------- known findings
 
 def load_known():
-    p = os.path.join(VERIF, "known_findings.json")
-    if not os.path.exists(p):
-        return {"findings": [], "fixed": []}
-    return json.load(open(p))
+    """known_findings.json plus per-property files known/*.json (same format); committed,
+    never written at run time."""
+    out = {"findings": [], "fixed": []}
+    paths = [os.path.join(VERIF, "known_findings.json")]
+    kd = os.path.join(VERIF, "known")
+    if os.path.isdir(kd):
+        paths += sorted(os.path.join(kd, f) for f in os.listdir(kd) if f.endswith(".json"))
+    for p in paths:
+        if os.path.exists(p):
+            k = json.load(open(p))
+            out["findings"] += k.get("findings", [])
+            out["fixed"] += k.get("fixed", [])
+    return out
+
+
+def shrink_history(line, still_bad, max_tries=400):
+    """Shrinks a sim history (JSON): drops steps, then calls / datagrams inside steps,
+    while still_bad(line) holds."""
+    h = json.loads(line)
+    tries = [0]
+
+    def bad(hh):
+        tries[0] += 1
+        if tries[0] > max_tries:
+            return False
+        return still_bad(json.dumps(hh, separators=(",", ":")))
+    changed = True
+    while changed and tries[0] <= max_tries:
+        changed = False
+        steps = h.get("steps", [])
+        for i in range(len(steps) - 1, -1, -1):
+            hh = dict(h)
+            hh["steps"] = steps[:i] + steps[i + 1:]
+            if bad(hh):
+                h = hh
+                changed = True
+                break
+        if changed:
+            continue
+        for i, st in enumerate(h.get("steps", [])):
+            for key in ("calls", "dgrams"):
+                items = st.get(key) or []
+                for j in range(len(items) - 1, -1, -1):
+                    hh = json.loads(json.dumps(h))
+                    hh["steps"][i][key] = items[:j] + items[j + 1:]
+                    if bad(hh):
+                        h = hh
+                        changed = True
+                        break
+                if changed:
+                    break
+            if changed:
+                break
+    return json.dumps(h, separators=(",", ":"))
 
 
 # --------------------------------------------------------------------------- the check itself
@@ -365,6 +415,42 @@ def main_check(mod):
         problems.append({"kind": "audit", "what": "forbidden declaration in the development", "detail": bad})
 
     # 3./4. correspondence and monitors
+    # A property module may drive the harness in another mode (HARNESS_ARGS, e.g. ["sim"]),
+    # project the raw implementation output to the observation the property is about
+    # (project), and derive the model driver's input from case + raw output (model_input: the
+    # environment's choices the model needs, e.g. observed jitter).
+    h_env = getattr(mod, "HARNESS_ENV", None)
+    h_args = getattr(mod, "HARNESS_ARGS", None)
+    per_shard = getattr(mod, "PER_SHARD", 50)
+    project = getattr(mod, "project", lambda line, raw: raw)
+    model_input = getattr(mod, "model_input", lambda line, raw: line)
+
+    def run_impl(ls):
+        raws = run_cases(binp, ls, h_env, h_args, per_shard)
+        obs = []
+        for l, r in zip(ls, raws):
+            try:
+                obs.append(project(l, r) if r not in ("HANG", "CRASH", "PANIC", "NOOUTPUT") else r)
+            except Exception as e:  # a projection failure is a harness problem, made visible
+                obs.append("BADPROJECTION %s" % (repr(e)[:200]))
+        return raws, obs
+
+    def run_model(ls, raws):
+        if not okm:
+            return ["NOMODEL"] * len(ls), ["NOMODEL"] * len(ls)
+        mi = []
+        for l, r in zip(ls, raws):
+            try:
+                mi.append(model_input(l, r))
+            except Exception as e:
+                mi.append("BADINPUT %s" % (repr(e)[:200]))
+        return mi, run_cases(MODEL_BIN, mi)
+
+    def run_mon(mi, obs):
+        if not okm:
+            return ["NOMODEL"] * len(mi)
+        return run_monitor(pid, mi, obs, MODEL_BIN)
+
     if args.replay:
         rp = json.load(open(args.replay))
         cases = [Case(rp["case"], "replay")] if "case" in rp else []
@@ -376,9 +462,9 @@ def main_check(mod):
         cases = corpus_cases(pid) + mod.generate(rng, tier)
     lines = [c.line for c in cases]
     t1 = time.time()
-    impl = run_cases(binp, lines, getattr(mod, "HARNESS_ENV", None))
-    model = run_cases(MODEL_BIN, lines) if okm else ["NOMODEL"] * len(lines)
-    mon = run_monitor(pid, lines, impl, MODEL_BIN) if okm else ["NOMODEL"] * len(lines)
+    raws, impl = run_impl(lines)
+    minputs, model = run_model(lines, raws)
+    mon = run_mon(minputs, impl)
     t_run = time.time() - t1
 
     disagreements = [i for i in range(len(lines)) if impl[i] != model[i] and impl[i] != "SKIP"]
@@ -409,21 +495,29 @@ def main_check(mod):
         print("KNOWN-FINDING: property=%s %s (%s; %d cases this run, e.g. %s)" %
               (pid, k["what"], cls, len(idxs), lines[idxs[0]][:200]))
 
+    def one(l):
+        rw, ob = run_impl([l])
+        mi, mo = run_model([l], rw)
+        mn = run_mon(mi, ob)
+        return rw[0], ob[0], mi[0], mo[0], mn[0]
+
     exit_code = 0
     violation_lines = []
     if new_viol:
         i = new_viol[0]
 
         def still_bad(l):
-            r = run_cases(binp, [l], getattr(mod, "HARNESS_ENV", None))
-            m = run_monitor(pid, [l], r, MODEL_BIN)
-            return (not m[0].startswith("PASS")) and r[0] != "SKIP" and not m[0].startswith("BAD")
-        small = shrink(pid, lines[i], binp, still_bad)
-        r = run_cases(binp, [small], getattr(mod, "HARNESS_ENV", None))
-        m = run_monitor(pid, [small], r, MODEL_BIN)
+            rw, ob, mi, mo, mn = one(l)
+            if ob == "SKIP" or mn.startswith("PASS") or mn.startswith("BAD") or ob.startswith("BAD"):
+                return False
+            cls = mod.known_class(l, ob, mn) if hasattr(mod, "known_class") else None
+            return not (cls and any(k["id"] == cls for k in known_for))
+        shrinker = getattr(mod, "shrink", None)
+        small = shrinker(lines[i], still_bad) if shrinker else shrink(pid, lines[i], binp, still_bad)
+        rw, ob, mi, mo, mn = one(small)
         rp = write_replay(pid, {"kind": "case", "case": small, "original_case": lines[i],
-                                "impl_result": r[0], "model_result": run_cases(MODEL_BIN, [small])[0],
-                                "monitor": m[0], "tag": cases[i].tag, "seed": seed, "tier": tier,
+                                "impl_result": ob, "model_result": mo, "model_input": mi,
+                                "monitor": mn, "tag": cases[i].tag, "seed": seed, "tier": tier,
                                 "how": "./check %s --replay <this file>" % pid})
         violation_lines.append("VIOLATION property=%s replay=%s" % (pid, rp))
         exit_code = 1
@@ -434,8 +528,9 @@ def main_check(mod):
             rng2 = random.Random(seed + 1)
             extra = mod.search(rng2, problems, [lines[i] for i in unexplained])
             xl = [c.line for c in extra]
-            xr = run_cases(binp, xl, getattr(mod, "HARNESS_ENV", None))
-            xm = run_monitor(pid, xl, xr, MODEL_BIN) if okm else []
+            xraw, xr = run_impl(xl)
+            xmi, _ = run_model(xl, xraw)
+            xm = run_mon(xmi, xr) if okm else []
             for j in range(len(xm)):
                 if not xm[j].startswith("PASS") and xr[j] != "SKIP":
                     cls = mod.known_class(xl[j], xr[j], xm[j]) if hasattr(mod, "known_class") else None
@@ -453,7 +548,8 @@ def main_check(mod):
             if unexplained:
                 i = unexplained[0]
                 payload["correspondence"] = {"level": mod.LEVELS, "first_disagreement": {
-                    "case": lines[i], "impl": impl[i], "model": model[i], "monitor": mon[i]},
+                    "case": lines[i], "impl": impl[i], "model": model[i], "model_input": minputs[i],
+                    "monitor": mon[i]},
                     "disagreements": len(unexplained)}
             rp = write_replay(pid, payload)
             violation_lines.append("VIOLATION property=%s replay=%s no-failing-input-found" % (pid, rp))
